@@ -271,6 +271,9 @@ func c05Helpers(eng *twig.Engine) {
 	eng.RegisterString("c05libidx", "{% macro m() %}m{% endmacro %}{{ arr[99].x.y }}{{ c05nosuch2() }}")
 	eng.RegisterString("c05libimp", "{% import 'c05libdiv' as d %}{% macro m() %}m{% endmacro %}")
 	eng.RegisterString("c05libext", "{% extends 'c05-no-such-parent' %}{% macro m() %}m{% endmacro %}")
+	// a partial that reads attributes of values of every shape, for sandboxed includes under the library's default policy
+	eng.EnableSandbox(twig.NewDefaultSecurityPolicy())
+	eng.RegisterString("c05sb", "{{ missing.Name }}|{{ n.Name }}|{{ nilp.A }}|{{ nili.A }}|{{ st.Name }}|{{ pst.Hello }}|{{ m.k }}|{{ mis[1] }}|{% for q in missing.items %}x{% endfor %}{{ tnil.X }}|{{ any.deeper.still }}")
 	eng.RegisterString("c05nest", "{% import 'macros' as mm %}<{% include 'inc' %}{% include 'c05mid' %}{{ mm.m(1) }}{% for i in [1, 2] %}{% include 'c05mid' with {'a': i} %}{% endfor %}>")
 }
 
